@@ -2,6 +2,7 @@ package main
 
 import (
 	"fmt"
+	"go/types"
 	"strings"
 
 	"golang.org/x/tools/go/ssa"
@@ -46,6 +47,8 @@ func checkC11(p *Prog, r *Report) {
 	// one body stands for all instantiations
 	seenOrigin := map[*ssa.Function]bool{}
 	nStores, nLoads, nRets := 0, 0, 0
+	nDeref := 0
+	lsC11 := BuildLockset(p, "spine", "model")
 	for _, fn := range p.RepoFns("spine") {
 		if !isFunctionDataFn(fn) || seenOrigin[originOf(fn)] {
 			continue
@@ -86,6 +89,21 @@ func checkC11(p *Prog, r *Report) {
 					}
 					r.Check("O5", fmt.Sprintf("%s|store#%d", base, storeIdx), guarded, p.InstrPos(x), "the store is reached only on the true edge of the persist parameter")
 				case *ssa.UnOp:
+					// a dereference of the stored pointer (copying the stored struct) happens under the store's lock
+					if inner, isLd := x.X.(*ssa.UnOp); isLd {
+						if fa2, ok := inner.X.(*ssa.FieldAddr); ok && fieldOfAddr(fa2) != nil && fieldOfAddr(fa2).Name() == "data" {
+							if _, isPtr := inner.Type().Underlying().(*types.Pointer); isPtr {
+								nDeref++
+								held := false
+								for lp := range lsC11.At(x) {
+									if strings.HasPrefix(lp, "recv.") {
+										held = true
+									}
+								}
+								r.Check("O2", fmt.Sprintf("%s|deref#%d", base, nDeref), held, p.InstrPos(x), fmt.Sprintf("the stored struct is read through the stored pointer with the locks %s held (a lock of the function-data object is required: a concurrent update assigns into that struct)", lsC11.At(x)))
+							}
+						}
+					}
 					fa, ok := x.X.(*ssa.FieldAddr)
 					if !ok || fieldOfAddr(fa) == nil || fieldOfAddr(fa).Name() != "data" {
 						continue
